@@ -463,6 +463,110 @@ def lie_opts_section(flow_mod):
             f"Definition gen_lie_opts_second_arg : lopts := {b(result['u'])}.\n")
 
 
+# ------------------------------------------------------------------------------------------------
+# modules/flow.py ExpFlow: the arguments its forward / inverse hand to expv
+# ------------------------------------------------------------------------------------------------
+def expflow_section(loader, flow_mod):
+    import types
+    core = loader.load("deepali.core")
+    G = loader.load("deepali.core.grid")
+    T = loader.load("deepali.core.typing")
+    saved = dict(core.__dict__)
+    core.ALIGN_CORNERS = G.ALIGN_CORNERS
+    for n in ("Array", "Scalar", "ScalarOrTuple"):
+        setattr(core, n, getattr(T, n))
+    calls = []
+    U = types.SimpleNamespace()
+
+    def expv(x, **kw):
+        calls.append((x, kw))
+        return ("expv-result", len(calls))
+    U.expv = expv
+    core.functional = U
+    try:
+        loader.mods.pop("deepali.modules.flow", None)
+        M = loader.load("deepali.modules.flow")
+        steps_table = {}
+        for steps in [None] + list(range(0, KMAX + 1)):
+            m = M.ExpFlow(steps=steps)
+            calls.clear()
+            x = object()
+            r = m(x)
+            if len(calls) != 1 or calls[0][0] is not x or r != ("expv-result", 1):
+                raise TraceError("ExpFlow.forward is not one call of expv on its input")
+            kw = calls[0][1]
+            if set(kw) != {"scale", "steps", "align_corners"}:
+                raise TraceError(f"ExpFlow.forward passes {sorted(kw)} to expv")
+            if not isinstance(kw["steps"], int):
+                raise TraceError("ExpFlow passes a non-integer number of steps")
+            steps_table[steps] = kw["steps"]
+            if kw["scale"] != 1 or kw["align_corners"] is not G.ALIGN_CORNERS:
+                raise TraceError("ExpFlow defaults are not scale = 1, align_corners = ALIGN_CORNERS")
+        signs = {}
+        acs = {}
+        for scale in (1.5, -0.5, 2.0, 0.25):
+            for ac in (True, False):
+                m = M.ExpFlow(scale=scale, steps=3, align_corners=ac)
+                for how in ("forward", "forward_inverse", "inverse()", "inv"):
+                    calls.clear()
+                    if how == "forward":
+                        m(0)
+                    elif how == "forward_inverse":
+                        m(0, inverse=True)
+                    elif how == "inverse()":
+                        m.inverse()(0)
+                    else:
+                        m.inv(0)
+                    kw = calls[0][1]
+                    if kw["scale"] == scale:
+                        sg = 1
+                    elif kw["scale"] == -scale:
+                        sg = -1
+                    else:
+                        raise TraceError(f"ExpFlow {how}: scale {kw['scale']} for module scale {scale}")
+                    if signs.setdefault(how, sg) != sg:
+                        raise TraceError(f"ExpFlow {how}: sign of the scale depends on the scale / flag")
+                    if kw["steps"] != 3:
+                        raise TraceError(f"ExpFlow {how} changes the number of steps")
+                    if acs.setdefault(ac, kw["align_corners"]) != kw["align_corners"]:
+                        raise TraceError("ExpFlow align_corners differs between call paths")
+                    if m.scale != scale or m.steps != 3 or m.align_corners != ac:
+                        raise TraceError(f"ExpFlow {how} modifies the module")
+        if signs["inv"] != signs["inverse()"]:
+            raise TraceError("ExpFlow.inv differs from ExpFlow.inverse()")
+    finally:
+        core.__dict__.clear()
+        core.__dict__.update(saved)
+        loader.mods.pop("deepali.modules.flow", None)
+
+    def b(x):
+        return "true" if x else "false"
+    arms = "\n".join(f"  | Some {k}%nat => {steps_table[k]}%nat" for k in range(0, KMAX + 1))
+    return ("(* modules/flow.py ExpFlow(scale, steps, align_corners): what forward(x, inverse) and inverse()(x) hand to expv *)\n"
+            f"Definition gen_expflow_steps (steps : option nat) : nat :=\n  match steps with\n  | None => {steps_table[None]}%nat\n{arms}\n"
+            "  | Some _ => 0%nat (* outside the generated table *)\n  end.\n"
+            f"Definition gen_expflow_forward_sign (inverse : bool) : Z := if inverse then ({signs['forward_inverse']})%Z else ({signs['forward']})%Z.\n"
+            f"Definition gen_expflow_inverse_module_sign : Z := ({signs['inverse()']})%Z.\n"
+            f"Definition gen_expflow_ac (ac : bool) : bool := if ac then {b(acs[True])} else {b(acs[False])}.\n")
+
+
+def expv_defaults(mods):
+    """expv(flow) with scale / steps left to their defaults"""
+    flow_mod, img, grid_mod = mods
+    rec = Recorder()
+    u = sym((1, 2) + shapes_for(2, True), "f")
+    Fp = TorchProxy(st.functional, grid_sample=rec)
+    with patched(img, "F", Fp), patched(flow_mod, "F", Fp), patched(grid_mod, "torch", torch_proxy()):
+        flow_mod.expv(u, align_corners=True)
+    nsteps = len(rec.calls)
+    e0 = rec.calls[0]["input"].a.reshape(-1)[0]
+    f0 = u.a.reshape(-1)[0]
+    env = {f0.args[0]: Fraction(3, 7)}
+    if fr_eval(e0, env) != Fraction(3, 7) / 2 ** nsteps:
+        raise TraceError("expv default scale is not 1")
+    return nsteps
+
+
 def generate(loader):
     flow_mod = loader.load("deepali.core.flow")
     img = loader.load("deepali.core.image")
@@ -472,6 +576,8 @@ def generate(loader):
     with simple_float_literals():
         pre, eflags = expv_section(mods)
         cflags, cbatch = compose_section(mods)
+        dsteps = expv_defaults(mods)
+        expflow = expflow_section(loader, flow_mod)
     out += pre
     out += emit_flags("gen_expv", eflags)
     out += emit_flags("gen_compose", cflags)
@@ -495,4 +601,6 @@ def generate(loader):
     out.append("(* does compose_flows accept a batch of N > 1 fields (an in-place add into a (1, ...) tensor raises)? *)\n"
                f"Definition gen_compose_flows_batched : bool := {'true' if cbatch else 'false'}.\n")
     out.append("End Gen.\n")
+    out.append(f"(* expv(flow) with steps=None: number of squaring steps (scale=None is 1: checked on the trace) *)\nDefinition gen_expv_default_steps : nat := {dsteps}%nat.\n")
+    out.append(expflow)
     return "\n".join(out)
